@@ -285,14 +285,14 @@ theorem C04_store_refines_spec (c : Codec) (bits i : Nat) (hb2 : 2 ≤ bits) (hb
       obtain ⟨syms, d, h1, h2, h3⟩ := entryOf_decodes bits hb2 sigS x.1 x.2 (hwf x hx')
       exact ⟨syms, d, h1, h2, h3⟩
 
-/-- **the store refines the specification — every signal type of the VCD path** (vectors, one-bit signals, reals, strings): the
-finished store has the time table of `Spec.run`, and loading signal `i` yields exactly `Spec.run`'s change list for it: the time
-index of every change and, per change, the entry of its value (`C04_entries_of_values`: the string's bytes, the double's 8
-bytes, the one-bit code byte, the aligned packed symbols). Hypotheses: the signal is written through VCD tokens / `real`
-operations (`hraw`: not through the pre-encoded GHW path), parsed reals are 8 bytes, no block beyond 2^36 bytes. -/
+/-- **the store refines the specification — every signal type, both write paths** (vectors, one-bit signals, reals, strings;
+VCD tokens, `real` operations and pre-encoded GHW-style writes `add_n_bit_change` alike): the finished store has the time table
+of `Spec.run`, and loading signal `i` yields exactly `Spec.run`'s change list for it: the time index of every change and, per
+change, the entry of its value (`C04_entries_of_values`: the string's bytes, the double's 8 bytes, the one-bit code byte, the
+aligned packed symbols in their smallest kind — `checkMinState_kindOf` for pre-encoded values). Hypotheses: parsed reals are
+8 bytes, no block beyond 2^36 bytes, block size between 1 and 2^28 time steps. -/
 theorem C04_store_refines_spec_all (c : Codec) (i : Nat) (hbm : 1 ≤ c.blockMax) (hbmax : c.blockMax ≤ 2 ^ 28)
     (tps : List SigType) (tpe : SigType) (hw : ∀ b, tpe = .bitvec b → 1 ≤ b) (hti : tps[i]? = some tpe) (ops : List Spec.Op)
-    (hraw : ∀ op ∈ ops, ∀ st b, op ≠ .raw i st b)
     (hreal : ∀ op ∈ ops, ∀ j v r, op = .vcd j v (some r) → r.length = 8)
     (e : Enc) (he : Spec.runOps c (newEnc tps) ops = some e)
     (tt : List Nat) (sigs : List (List (Nat × Spec.Value))) (hrun : Spec.run tps ops = some (tt, sigs))
@@ -311,7 +311,7 @@ theorem C04_store_refines_spec_all (c : Codec) (i : Nat) (hbm : 1 ≤ c.blockMax
     have := spec_table tps.toArray ops (specInit tps) s [] rfl hs
     rw [this]
   · have hti' : tps[i]? = some (kindFor tpe hw).tpe := by rw [kindFor_tpe]; exact hti
-    obtain ⟨sigS, hload, hwf⟩ := store_load_canonK (kindFor tpe hw) (kindFor_ok tpe hw) c i hbm hbmax tps hti' ops hraw hreal e he s hs hsmall
+    obtain ⟨sigS, hload, hwf⟩ := store_load_canonK (kindFor tpe hw) (kindFor_ok tpe hw) c i hbm hbmax tps hti' ops hreal e he s hs hsmall
     rw [kindFor_tpe] at hload
     have hext := Spec.fold_ext tps.toArray ops (specInit tps) s rfl hs
     have hsize : s.changesRev.size = tps.length := by rw [hext.size]; simp [specInit]
